@@ -142,7 +142,7 @@ func c34Classify(l int, payload []byte, err error, hint string) c34Ev {
 }
 
 var c34BufPool = sync.Pool{New: func() any { b := make([]byte, pktline.MaxSize); return &b }}
-var c34BigPool = sync.Pool{New: func() any { b := make([]byte, 1<<20); return &b }}
+var c34BigPool = sync.Pool{New: func() any { b := make([]byte, 1<<18); return &b }}
 
 type dSwapReader struct{ r io.Reader }
 
@@ -782,15 +782,15 @@ func c34Sideband(c *fw.Ctx, env *c34Env, mark func(string), cheap bool) {
 		}
 		return out
 	}
-	alt17 := c34ReadPlan{1, 7, 1, 7, 1, 7, 1, 7, 1 << 20}
-	tinyPlans := plansOf(1, 2, 3, 4, 5, 7, 8, 1<<20)
-	mediumPlans := append(plansOf(7, 995, 996, 1000, 4096, 1<<20), alt17)
-	fullPlans := append(plansOf(1, 2, 3, 4, 5, 6, 7, 8, 994, 995, 996, 1000, 4096, 65515, 65516, 65519, 65520, 65521, 1<<20), alt17, c34ReadPlan{3, 1000, 3, 1000, 3, 1 << 20})
-	bigPlans := plansOf(1000, 4096, 65515, 65516, 65519, 65520, 65521, 1<<20)
-	lite1000 := append(plansOf(1<<20, 7, 996), alt17)
-	lite64 := plansOf(1<<20, 65515)
+	alt17 := c34ReadPlan{1, 7, 1, 7, 1, 7, 1, 7, 1 << 18}
+	tinyPlans := plansOf(1, 2, 3, 4, 5, 7, 8, 1<<18)
+	mediumPlans := append(plansOf(7, 995, 996, 1000, 4096, 1<<18), alt17)
+	fullPlans := append(plansOf(1, 2, 3, 4, 5, 6, 7, 8, 994, 995, 996, 1000, 4096, 65515, 65516, 65519, 65520, 65521, 1<<18), alt17, c34ReadPlan{3, 1000, 3, 1000, 3, 1 << 18})
+	bigPlans := plansOf(1000, 4096, 65515, 65516, 65519, 65520, 65521, 1<<18)
+	lite1000 := append(plansOf(1<<18, 7, 996), alt17)
+	lite64 := plansOf(1<<18, 65515)
 	if c.Thorough() {
-		lite64 = append(plansOf(1<<20, 4096, 65515), c34ReadPlan{7, 65520})
+		lite64 = append(plansOf(1<<18, 4096, 65515), c34ReadPlan{7, 65520})
 	}
 	var jobs []sbJob
 	mk := func(part string, t sideband.Type, ops []c34SbWrite, minLen, maxLen int, flushes []bool, chunks string, plans []c34ReadPlan, cutPlans bool) {
@@ -829,7 +829,7 @@ func c34Sideband(c *fw.Ctx, env *c34Env, mark func(string), cheap bool) {
 		mk("sb-64k-allsplits", sideband.Sideband64k, []c34SbWrite{{P, 65516}}, 1, 1, []bool{true}, "all1", lite64, false)
 	}
 	c.Bound(fmt.Sprintf("sideband_jobs_cheap_%v", cheap), len(jobs))
-	c.Bound("sideband_read_sizes", "small packets: 1..8, 994..996, 1000, 4096, 65515, 65516, 65519..65521, 1MiB, alternating 1/7 and 3/1000, and for the smallest scripts every (k1), (k1,k2) prefix of read sizes up to the pack length; 64k packets: 1000, 4096, 65515, 65516, 65519..65521, 1MiB (read sizes below 1000 are not combined with 64k packets: Demuxer.doRead re-clones the pending remainder on every Read, i.e. quadratic cost)")
+	c.Bound("sideband_read_sizes", "small packets: 1..8, 994..996, 1000, 4096, 65515, 65516, 65519..65521, 256KiB, alternating 1/7 and 3/1000, and for the smallest scripts every (k1), (k1,k2) prefix of read sizes up to the pack length; 64k packets: 1000, 4096, 65515, 65516, 65519..65521, 256KiB (read sizes below 1000 are not combined with 64k packets: Demuxer.doRead re-clones the pending remainder on every Read, i.e. quadratic cost)")
 	maxima := []int{1, 2, 3, 4, 5, 6, 7, 8, 999, 1000, 1001, 4095, 4096, 65519, 65520, 65521}
 
 	for ji := range jobs {
@@ -923,9 +923,9 @@ func c34Sideband(c *fw.Ctx, env *c34Env, mark func(string), cheap bool) {
 			plans = append([]c34ReadPlan{}, plans...)
 			T := len(wantPack)
 			for k1 := 1; k1 <= T; k1++ {
-				plans = append(plans, c34ReadPlan{k1, 1 << 20})
+				plans = append(plans, c34ReadPlan{k1, 1 << 18})
 				for k2 := 1; k1+k2 <= T; k2++ {
-					plans = append(plans, c34ReadPlan{k1, k2, 1 << 20})
+					plans = append(plans, c34ReadPlan{k1, k2, 1 << 18})
 				}
 			}
 		}
